@@ -12,7 +12,7 @@ macro_rules! c16 {
     };
 }
 /// (the last component is 300 characters long; "a" is listed more than once to keep shared prefixes likely)
-pub const COMPS: [&str; 9] = ["a", "b", "ab", "aa", "ba", "é", "a", "b", concat!("long", c16!(c16!("n")), c16!("mm"), "12345678")];
+pub const COMPS: [&str; 11] = ["a", "b", "ab", "aa", "ba", "é", "a", "b", "\u{43a}", "caf\u{e9}", concat!("long", c16!(c16!("n")), c16!("mm"), "12345678")];
 pub const APPENDERS: [&str; 5] = ["A0", "A1", "A2", "A3", "A4"];
 
 #[derive(Debug, Clone, Serialize, Deserialize)]
